@@ -424,7 +424,8 @@ class kMinPathErrorCycles(walkmodel.AbstractWalkModelDiGraph):
         non_empty_weights = []
         non_empty_slacks = []
         for walk, weight, slack in zip(solution["walks"], solution["weights"], solution["slacks"]):
-            if len(walk) > 1:
+            # a node-weighted walk may consist of a single node (a node that is both a source and a sink)
+            if len(walk) > (0 if self.flow_attr_origin == "node" else 1):
                 non_empty_walks.append(walk)
                 non_empty_weights.append(weight)
                 non_empty_slacks.append(slack)
